@@ -204,6 +204,15 @@ def numba_newton_raphson(
         else:
             bounds_to_check = (root_bounds[0], root_bounds[1])
 
+        if root_bounded and (
+            next_iterate < bounds_to_check[0] or next_iterate > bounds_to_check[1]
+        ):
+            # The step wants to leave the interval that brackets the root: take a
+            # bisection step. (Stepping halfway to the violated bound does not
+            # move at all when the current iterate is that bound, and the
+            # iteration would then stop as "converged" away from the root.)
+            next_iterate = 0.5 * (root_bounds[0] + root_bounds[1])
+
         if next_iterate < bounds_to_check[0]:
             next_iterate = (bounds_to_check[0] - iterates[2]) * 0.5 + iterates[2]
 
